@@ -99,7 +99,8 @@ func apiAmounts(rep *evid.Reporter) (cases, accepted, refused int) {
 			if !ok {
 				continue
 			}
-			for _, entry := range []string{"v1", "v2", "v2-bulk"} {
+			outcome := map[string]bool{}
+			for _, entry := range []string{"v1", "v2", "v2-bulk", "v2-bulk-second"} {
 				cases++
 				st := memstore.New()
 				eng := engineh.Start(st, nil)
@@ -111,6 +112,13 @@ func apiAmounts(rep *evid.Reporter) (cases, accepted, refused int) {
 					path = "/api/ledger/v2/l1/transactions"
 				case "v2-bulk":
 					path, reqBody = "/api/ledger/v2/l1/_bulk", `[{"action":"CREATE_TRANSACTION","data":`+body+`}]`
+				case "v2-bulk-second":
+					// behind an element of another shape (postings, metadata, reference, timestamp of its own)
+					path, reqBody = "/api/ledger/v2/l1/_bulk", `[{"action":"CREATE_TRANSACTION","data":{"postings":[{"source":"world","destination":"zz","amount":77,"asset":"Y"}],"metadata":{"first":"x"},"reference":"first-ref","timestamp":"2023-01-01T00:00:00Z","script":{"vars":{"m":"Y 1","n":"1"}}}},{"action":"CREATE_TRANSACTION","data":`+body+`}]`
+				}
+				first := 0
+				if entry == "v2-bulk-second" {
+					first = 1
 				}
 				req := httptest.NewRequest("POST", path, strings.NewReader(reqBody)).WithContext(eng.Ctx())
 				w := httptest.NewRecorder()
@@ -128,12 +136,16 @@ func apiAmounts(rep *evid.Reporter) (cases, accepted, refused int) {
 					continue
 				}
 				success := w.Code >= 200 && w.Code < 300
-				if entry == "v2-bulk" && strings.Contains(w.Body.String(), `"errorCode"`) {
+				if strings.HasPrefix(entry, "v2-bulk") && strings.Contains(w.Body.String(), `"errorCode"`) {
 					success = false
+				}
+				outcome[entry] = success
+				if entry == "v2-bulk-second" && outcome["v2-bulk"] != success {
+					rep.Violation(key("bulk-position"), fmt.Sprintf("amount %q supplied as %s: alone in a bulk the element is accepted=%v, behind an element of another shape accepted=%v (%s)", a, form.Name, outcome["v2-bulk"], success, w.Body.String()), replay)
 				}
 				if !success {
 					refused++
-					if len(logs) != 0 {
+					if len(logs) != first {
 						rep.Violation(key("refused-with-entry"), fmt.Sprintf("amount %q supplied as %s through %s was refused (%d) but %d entries were committed", a, form.Name, entry, w.Code, len(logs)), replay)
 					}
 					continue
@@ -144,11 +156,11 @@ func apiAmounts(rep *evid.Reporter) (cases, accepted, refused int) {
 					rep.Violation(key("spelling-accepted"), fmt.Sprintf("amount %q (states no non-negative integer) supplied as %s through %s was accepted: %s", a, form.Name, entry, w.Body.String()), replay)
 					continue
 				}
-				if len(logs) != 1 {
+				if len(logs) != first+1 {
 					rep.Violation(key("entries"), fmt.Sprintf("amount %q supplied as %s through %s reported success with %d entries committed", a, form.Name, entry, len(logs)), replay)
 					continue
 				}
-				tx := txOfLog(logs[0])
+				tx := txOfLog(logs[first])
 				if tx == nil {
 					rep.Violation(key("entries"), "the committed entry holds no transaction", replay)
 					continue
@@ -165,6 +177,9 @@ func apiAmounts(rep *evid.Reporter) (cases, accepted, refused int) {
 					}
 				}
 				// the answer shows the committed transaction
+				if tx != nil && entry == "v2-bulk-second" && (tx.Reference != "" || len(tx.Metadata) > 1 || tx.Metadata["first"] != "") {
+					rep.Violation(key("inherited"), fmt.Sprintf("the second element of the bulk (amount %s supplied as %s) is committed with reference %q and metadata %v of the element before it", a, form.Name, tx.Reference, tx.Metadata), replay)
+				}
 				if !strings.Contains(w.Body.String(), want.String()) && form.Where == "posting" {
 					rep.Violation(key("answer"), fmt.Sprintf("the answer to %s (supplied as %s through %s) does not carry the amount: %s", a, form.Name, entry, w.Body.String()), replay)
 				}
